@@ -133,7 +133,7 @@ PROPS['C10'] = {
         "'different names get different ids' and 'no fresh variable is in use elsewhere': ids come from next_id(); its counter contract (successive, non-zero, increasing) is proved by Kani, the composition with the map invariant is not machine-checked",
         'the fallback_id restore in the clause loop of next_solution (solver, outside reach)',
         'get_rule: which vector the HashMap returns for a &str key is vstd\'s uninterpreted maps_borrowed_key_to_value (no String/str key axiom in vstd); the contract says the result is the renamed index-th rule of that vector',
-        'make_query: the static-mut reset in start_query is covered by C22 (Kani); parse_query\'s call in unit parsers does not establish the wf_seq precondition (consistent list counts of the parsed terms)',
+        'make_query: the static-mut reset in start_query is covered by C22 (Kani); parse_query\'s call establishes the wf_seq precondition (unit parsers: every parser returns well-formed terms)',
     ],
 }
 
@@ -177,7 +177,7 @@ PROPS['C18'] = {
                 'parse_terms.rs::parse_arguments': 'c18_parsers:parse_complex', 'parse_goals.rs::parse_subgoal': 'c18_parsers:parse_subgoal',
                 '*': 'c18_parsers'},
     'not_covered': [
-        'TRUSTED: make_query (its renaming is proved in unit rename for well-formed terms; that parsed terms are well formed is not proved)',
+        'make_query is used through its contract (proved in unit rename); its precondition - well-formed terms - is established at parse_query\'s call: every parser returns well-formed terms (clauses #parsed_wf: consistent list counts, complex terms with a functor atom)',
         'PROVED (it used to be assumed): every opening-parenthesis token tokenize returns is followed by a subgoal or another opening parenthesis and the list starts with one of the two - from an invariant over the pending text (all white space, or containing a character that is no separator; no opening parenthesis alone) and the typing of make_leaf_token by the trimmed text. Trusted for it: white space is none of the characters the tokenizer gives a meaning to (axiom_ws_is_not_a_symbol, T3), a &str is determined by its characters (axiom_str_ext, T2), str::trim is a function (trimmed)',
         'so that every token group starts with a subgoal or a nested group (argument in DESIGN.md 8.8; exercised by the bounded oracle on every run). Everything else about the tokenizer is proved, '
         'including that the grouping functions only build trees that token_tree_to_goal accepts (its three panics are unreachable)',
